@@ -112,20 +112,22 @@ def _case_chunk(task):
     key, cases, timeout_ms = task
     contract = _PAR[key]
     out = []
-    inl = set()
+    inl, used, mod = set(), set(), set()
     for case in cases:
         try:
             vcs, stats = vcs_for(contract, case)
         except E.Unsupported as e:
             return dict(unsupported='%s (case %s)' % (e, case))
         inl |= set(stats['inlined'])
+        used |= set(stats['contracts'])
+        mod |= set(stats['modelled'])
         for v in vcs:
             v.name = '%s%s:%s' % (contract.key_name, ('{%s}' % case) if case != '' else '', v.name)
         _VCS = [(v.name, v.pc, v.goal, v.kind, timeout_ms) for v in vcs]
         for i, v in enumerate(vcs):
             (_, r, dt, model) = _solve(i)
             out.append((v.name, v.kind, r, dt, model))
-    return dict(results=out, inlined=sorted(inl))
+    return dict(results=out, inlined=sorted(inl), used=sorted(used), modelled=sorted(mod))
 
 
 def verify_contract(ctx, contract, timeout_ms=None):
@@ -147,6 +149,8 @@ def verify_contract(ctx, contract, timeout_ms=None):
                 v.name = '%s%s:%s' % (contract.key_name, ('{%s}' % case) if case != '' else '', v.name)
             allv.extend(vcs)
             ctx.inlined |= set(stats['inlined'])
+            ctx.callee_contracts |= set(stats['contracts'])
+            ctx.modelled |= set(stats['modelled'])
     except E.Unsupported as e:
         summary['unsupported'] = str(e)
         ctx.obligation(contract.qualname + ':symbolic-execution', fn, 'undecided', 'pyvc',
@@ -194,6 +198,8 @@ def _verify_parallel(ctx, contract, cases, timeout_ms, fn, shash, summary):
             summary['undecided'].append(contract.qualname + ':symbolic-execution')
             return summary
         ctx.inlined |= set(r['inlined'])
+        ctx.callee_contracts |= set(r.get('used', []))
+        ctx.modelled |= set(r.get('modelled', []))
         for (name, kind, verdict, dt, model) in r['results']:
             if kind == 'cover':
                 if verdict == 'unsat':
